@@ -1,7 +1,7 @@
 (* ===== C03 : rank reduction -- combinatorial core ===== *)
 From Coq Require Import List NArith ZArith QArith Qcanon Bool Arith Permutation.
 Import ListNotations.
-Require Import Scope ScopeP1 ScopeP2 ScopeP3 Mat MatScope MatSep MatLoop DummySpan.
+Require Import Scope ScopeP1 ScopeP2 ScopeP3 Mat MatScope MatSep MatLoop DummySpan ScopeWidth.
 
 (* Component semantics: a scoped term with numeric factors N, reduced factors R and full categorical factors F denotes the
    interval { S | N u R <= S <= N u R u F } of the subset lattice ([covers]); columns are independent iff the emitted
@@ -63,6 +63,31 @@ Theorem C03_reference_dummy_is_intercept_minus_others : forall ref others s, NoD
   ind_cell (Some s) ref = (q1 - qsum (map (ind_cell (Some s)) others))%Qc.
 Proof. exact reference_dummy_is_rest. Qed.
 
+(* the dimension-count half of "same column space": a scoped term with numeric factors (1 column each), reduced categorical factors
+   (n-1 columns) and full categorical factors (n columns) has exactly as many columns as the components it covers have dimensions,
+   where a component {i...} has dimension prod (n_i - 1) (1 for a numeric i).  comps enumerates exactly the covered components.
+   Together with C03_loop_emits_each_component_once (every component of the formula is covered by exactly one emitted term) this gives:
+   the emitted matrix has exactly  sum over the formula's components of their dimensions  columns -- the rank of the over-specified matrix
+   when every level combination is observed. *)
+Theorem C03_term_width_is_component_dimension : forall isnum nlev t, (forall f, In f t -> 1 <= nlev (fid f))%nat ->
+  twidth isnum nlev t = total (map (cwidth isnum nlev) (comps isnum t)).
+Proof. exact twidth_is_component_sum. Qed.
+Theorem C03_enumerated_components_are_covered : forall isnum t c, In c (comps isnum t) -> covers isnum t c = true.
+Proof. exact comps_are_covered. Qed.
+Theorem C03_covered_components_are_enumerated : forall isnum t c, covers isnum t c = true ->
+  exists c', In c' (comps isnum t) /\ (forall i, In i c <-> In i c').
+Proof. exact covered_is_comp. Qed.
+(* non-vacuity: a:B-:C with 3 and 4 levels has 1*2*4 = 8 columns = |{a,B}| + |{a,B,C}| = 2 + 6 *)
+Example C03_width_example : let a := [97]%N in let B := [66]%N in let C := [67]%N in
+  let isnum := (fun i => ideqb i a) in let nlev := (fun i => if ideqb i B then 3 else 4) in
+  twidth isnum nlev [(a, false); (B, true); (C, false)] = 8 /\
+  map (cwidth isnum nlev) (comps isnum [(a, false); (B, true); (C, false)]) = [2; 6].
+Proof. vm_compute. auto. Qed.
+
+Print Assumptions C03_term_width_is_component_dimension.
+Print Assumptions C03_enumerated_components_are_covered.
+Print Assumptions C03_covered_components_are_enumerated.
+Print Assumptions C03_width_example.
 Print Assumptions C03_full_dummies_sum_to_intercept.
 Print Assumptions C03_reference_dummy_is_intercept_minus_others.
 Print Assumptions C03_simplify_preserves_components.
